@@ -841,27 +841,27 @@ func Run(r *mc.Run) {
 func Replay(scenario string, raw json.RawMessage) []*mc.Violation {
 	if scenario == "decode-into-reused-struct" {
 		var in TwiceIn
-		if json.Unmarshal(raw, &in) == nil {
+		if mc.UnmarshalInput(raw, &in) == nil {
 			return checkTwice(scenario, in)
 		}
 		return nil
 	}
 	if scenario == "nested-member-name-collisions" {
 		var in ColIn
-		if json.Unmarshal(raw, &in) == nil {
+		if mc.UnmarshalInput(raw, &in) == nil {
 			return checkCollide(scenario, in)
 		}
 		return nil
 	}
 	if scenario == "unknown-field-pass-through" {
 		var in PTIn
-		if json.Unmarshal(raw, &in) == nil {
+		if mc.UnmarshalInput(raw, &in) == nil {
 			return checkPT(scenario, in)
 		}
 		return nil
 	}
 	var in In
-	if json.Unmarshal(raw, &in) == nil {
+	if mc.UnmarshalInput(raw, &in) == nil {
 		return check(scenario, in)
 	}
 	return nil
